@@ -273,10 +273,26 @@ def kernelRadius (g : Rat) : Nat := ((4 * g + mkRat 1 2).floor).toNat
 /-- `mode="nearest"`: index `x` read on an axis of length `n` -/
 def clampIdx (n : Nat) (x : Int) : Int := max 0 (min x ((n : Int) - 1))
 
+/-- the axis `-R … R` of the kernel -/
+def axis (R : Nat) : List Int := (List.range (2 * R + 1)).map fun (t : Nat) => (t : Int) - (R : Int)
+
 /-- the offsets `[-R, R]³` of the kernel -/
 def cube (R : Nat) : List (Int × Int × Int) :=
-  let ax : List Int := (List.range (2 * R + 1)).map fun (t : Nat) => (t : Int) - (R : Int)
-  ax.flatMap fun a => ax.flatMap fun b => ax.map fun c => (a, b, c)
+  (axis R).flatMap fun a => (axis R).flatMap fun b => (axis R).map fun c => (a, b, c)
+
+section Gauss
+variable {α : Type} [Add α] [Mul α] [Div α] [Neg α] [Zero α] [One α]
+
+/-- unnormalised 1-D weight of `scipy.ndimage.gaussian_filter1d` at offset `t`: `exp(-0.5 / σ² · t²)`; the exponential and
+the embedding of the integers are parameters (`Float.exp`/`Float.ofInt` in the driver, `Real.exp`/the cast in the proofs) -/
+def gaussRaw (exp : α → α) (ofInt : Int → α) (sigma : α) (t : Int) : α :=
+  exp (-(1 / (1 + 1)) / (sigma * sigma) * (ofInt t * ofInt t))
+
+/-- the weight the filter uses: `phi_x / phi_x.sum()` over the offsets `-R … R` -/
+def gaussW (exp : α → α) (ofInt : Int → α) (sigma : α) (R : Nat) (t : Int) : α :=
+  gaussRaw exp ofInt sigma t / ((axis R).map (gaussRaw exp ofInt sigma)).sum
+
+end Gauss
 
 section Blur
 variable {α : Type} [Add α] [Mul α] [Zero α]
